@@ -672,7 +672,10 @@ def check_C05(c):
     c.extra["rejected"] = rej
     # corpus of the malformed inputs the property cites
     corpus = ["[1)2]", "{1,2}", "f(1]2)", "true ? 1 , 2", "* 3", ": a", "? a", "a : b", "(1", "1)", "[1 2]", "{1:2 3:4}", "f(1 2)", "1 +", "1,2", ";", "1;;2",
-              "'abc", "\"abc", "1.2.3", "1e5", "a ? b", "a ? b :", "[1,,2]", "f(,)", "f(1,)", "{1}", "{1:}", "{:1}", "a not b", "a not", "not", "()", "[", "]"]
+              "'abc", "\"abc", "1.2.3", "1e5", "a ? b", "a ? b :", "[1,,2]", "f(,)", "f(1,)", "{1}", "{1:}", "{:1}", "a not b", "a not", "not", "()", "[", "]",
+              # malformed numbers whose first 28 fractional digits are fine (a decimal parser may stop looking after them)
+              "0.0000000000000000000000000001.", "0.0000000000000000000000000001.5", "1.0000000000000000000000000000.", "0.0000000000000000000000000001..",
+              "0.0000000000000000000000000001.2.3", "0.00000000000000000000000000012.3", "[1, 0.1234567890123456789012345678.9]", "x = 7.0000000000000000000000000000.0.0"]
     cr = [parse_req(s) for s in corpus]
     ic, mc = both(cr)
     c.add_stream(Stream("malformed corpus", cr, ic, mc, numeric=False))
